@@ -147,3 +147,25 @@ Proof. vm_compute. repeat split; reflexivity. Qed.
 Example tsA_code :
   code_text (render tsA) = Some "self._Yd[t+1] = self._alpha_1[t]*np.exp(self._is_open[t-12]) + min(self._Pin[t+2],1.5)/self._e[t] - self._not_X[t]**2 + 3*self._p[t-1] + (self._in_[t]-self._expo[t])".
 Proof. vm_compute. reflexivity. Qed.
+
+(* ---------- small instances of the remaining hypotheses ---------- *)
+Example int_index_instances :
+  py_int "+2" = Some 2%Z /\ py_int " -12 " = Some (-12)%Z /\ py_int "0" = Some 0%Z /\ py_int "1_0" = Some 10%Z /\
+  (quoted_by "'" "+2" || quoted_by """" "+2" = false) /\ quoted_by "`" "+2" = false /\
+  mk_index (Some "'2000'") = Ret (IStr "'2000'") /\ mk_index (Some "`2001`") = Ret (IStr "2001") /\
+  mk_index (Some "x") = Raise ParserError.
+Proof. vm_compute. repeat split; reflexivity. Qed.
+Example offsets_instances :
+  offset_text 0%Z = "[t]" /\ offset_text 1%Z = "[t+1]" /\ offset_text (-1)%Z = "[t-1]" /\ offset_text (-12)%Z = "[t-12]" /\
+  offset_text 10%Z = "[t+10]".
+Proof. vm_compute. repeat split; reflexivity. Qed.
+Example namespaced_instance : has_char "." "np.sqrt" = true /\ In "if" KW /\ ~ In "is_open" KW /\ ~ In "not_X" KW /\ ~ In "Pin" KW.
+Proof.
+  split; [reflexivity|]. split; [vm_compute; tauto|].
+  repeat split; apply in_kw_false; vm_compute; reflexivity.
+Qed.
+(* a period-label index is outside the arithmetic subset (it is rendered through self['X', label], not self._X[t+k]) *)
+Example label_index_instance :
+  code_text "Y = X['2000'] + Z[`2001`]" = Some "self._Y[t] = self['X', '2000'] + self['Z', 2001]" /\
+  stmt_of_equation (fun x => index_of x ["Y"; "X"; "Z"]) "Y = X['2000'] + Z[`2001`]" = None.
+Proof. vm_compute. split; reflexivity. Qed.
